@@ -107,11 +107,20 @@ class Report:
         if sample is not None and len(self.samples) < self.MAX_SAMPLES:
             self.samples.append(sample)
 
+    def _stored(self) -> Counter:
+        st = self.__dict__.get("_stored_per_key")
+        if st is None or sum(st.values()) != len(self.violations):
+            st = Counter(x.key() for x in self.violations)
+            self.__dict__["_stored_per_key"] = st
+        return st
+
     def violate(self, v: Violation) -> None:
         k = v.key()
         self.violation_counts[k] += 1
-        if sum(1 for x in self.violations if x.key() == k) < self.MAX_PER_FP:
+        st = self._stored()
+        if st[k] < self.MAX_PER_FP:
             self.violations.append(v)
+            st[k] += 1
 
     def merge(self, other: "Report") -> "Report":
         self.evaluations += other.evaluations
@@ -120,10 +129,12 @@ class Report:
         for s in other.samples:
             if len(self.samples) < self.MAX_SAMPLES:
                 self.samples.append(s)
+        st = self._stored()
         for v in other.violations:
             k = v.key()
-            if sum(1 for x in self.violations if x.key() == k) < self.MAX_PER_FP:
+            if st[k] < self.MAX_PER_FP:
                 self.violations.append(v)
+                st[k] += 1
         self.violation_counts.update(other.violation_counts)
         self.filtered += other.filtered
         if other.rule and not self.rule:
